@@ -26,7 +26,8 @@ RULE = ("Hypothesis-generated operation histories on an in-memory dataset (n<=40
 BUDGET = {"quick": 2880, "thorough": 40000}
 ESSENTIAL = ["op:range", "op:del_range", "op:poly_add", "op:poly_mod", "op:poly_rm",
              "op:limit", "op:manual", "op:reset", "op:enable", "op:invalid",
-             "limit-active", "range-tie-with-data", "range-reversed"]
+             "limit-active", "range-tie-with-data", "range-reversed",
+             "failed-apply-then-corrected"]
 ASSUMPTIONS = [
     "events lying exactly on a polygon boundary, or with a non-finite coordinate on a "
     "polygon axis, are excluded from the polygon comparison (counted)",
@@ -47,13 +48,21 @@ PT = st.tuples(st.integers(-24, 24).map(lambda i: i / 4),
 @st.composite
 def st_op(draw, feats, n):
     kind = draw(st.sampled_from(
-        ["range"] * 4 + ["range_eq", "del_range", "del_range", "range_missing",
+        ["range"] * 4 + ["failed_apply", "range_eq", "del_range", "del_range",
+                         "range_missing",
                          "poly_add", "poly_add", "poly_mod", "poly_mod", "poly_rm",
                          "invalid", "enable", "limit", "limit", "manual", "manual",
                          "reset"] + ["apply"] * 5))
     if kind == "range":
         return ["range", draw(st.sampled_from(feats)), draw(BOUND), draw(BOUND),
                 draw(st.booleans())]
+    if kind == "failed_apply":
+        # an apply that raises the documented ValueError (lone min key / unknown
+        # feature in `force`) while other settings were changed in the same step;
+        # the mistake is corrected afterwards
+        return ["failed_apply", draw(st.sampled_from(["lone", "force"])),
+                draw(st.sampled_from(feats)), draw(BOUND), draw(BOUND),
+                draw(st.sampled_from(feats)), draw(BOUND), draw(BOUND)]
     if kind == "range_eq":
         return ["range_eq", draw(st.sampled_from(feats)), draw(st.sampled_from(GRID))]
     if kind == "del_range":
@@ -180,6 +189,32 @@ def run_case(spec, rec):
                 rec.cls("range-reversed")
             if a != b and (np.any(data[f] == a) or np.any(data[f] == b)):
                 rec.cls("range-tie-with-data")
+        elif k == "failed_apply":
+            _, how, f, a, b, g, a2, b2 = op
+            # another range changed in the same step
+            cf[g + " min"] = a2
+            cf[g + " max"] = b2
+            M["ranges"][g] = (a2, b2)
+            raised = False
+            if how == "lone" and f != g and f not in M["ranges"]:
+                cf[f + " min"] = a
+                try:
+                    ds.apply_filter()
+                except ValueError:
+                    raised = True
+                cf[f + " max"] = b          # mistake corrected
+                M["ranges"][f] = (a, b)
+                rec.check(raised, "failed-apply/lone-key-not-rejected",
+                          "a lone '<feat> min' key did not raise the documented "
+                          "ValueError")
+            else:
+                try:
+                    ds.apply_filter(force=["no_such_feature"])
+                except ValueError:
+                    raised = True
+                rec.check(raised, "failed-apply/unknown-force-not-rejected",
+                          "apply_filter(force=[unknown]) did not raise ValueError")
+            rec.cls("failed-apply-then-corrected")
         elif k == "range_eq":
             _, f, v = op
             cf[f + " min"] = v
